@@ -58,7 +58,7 @@ def build(ck):
         _ic_set(ck)
 
 
-def _stage(ck, tag, calls, counter, x_list, family):
+def _stage(ck, tag, calls, counter, x_list, family, replay=None):
     """oracle-side application of the opaque step: the code's next call must have received x"""
     i = counter[0]
     counter[0] += 1
@@ -71,7 +71,7 @@ def _stage(ck, tag, calls, counter, x_list, family):
             ck.add(f"{tag}/call{i}/arg{k}/shape", False, [], family=family)
             continue
         for c in np.ndindex(a.shape):
-            ck.add(f"{tag}/call{i}/arg{k}/{'_'.join(map(str, c))}", sym.equal_goal(a[c], x[c]), [], family=family, replay=_loop_replay())
+            ck.add(f"{tag}/call{i}/arg{k}/{'_'.join(map(str, c))}", sym.equal_goal(a[c], x[c]), [], family=family, replay=replay or _loop_replay())
     return outs
 
 
@@ -254,7 +254,7 @@ def _repeated_stepper(ck):
         cnt = [0]
         cur = ins[1].sym
         for _ in range(n):
-            cur = _stage(ck, f"repeated/step_fourier/n{n}", calls, cnt, [cur], fam)[0]
+            cur = _stage(ck, f"repeated/step_fourier/n{n}", calls, cnt, [cur], fam, replay=_rep_replay())[0]
         ck.add(f"repeated/step_fourier/n{n}/calls", len(calls) == n, [], family=fam, replay=_rep_replay())
         for c in np.ndindex(cur.shape):
             ck.add(f"repeated/step_fourier/n{n}/out/{'_'.join(map(str, c))}", sym.equal_goal(enc.outs[0][c], cur[c]), [], family=fam, replay=_rep_replay())
@@ -289,11 +289,25 @@ def _repeated_stepper(ck):
 
 def _rep_replay():
     def replay(model):
+        """RepeatedStepper vs the naive loop on the real API: physical-space call (1D Burgers; 2D diffusion on an even
+        grid with content in the last-axis Nyquist column) and step_fourier on arbitrary complex spectra (1D, 2D)"""
+        rng = np.random.default_rng(0)
         s = ex.stepper.Burgers(1, 1.0, 16, 0.01)
         r = ex.RepeatedStepper(s, 3)
         u = ex.ic.RandomTruncatedFourierSeries(1, cutoff=3)(16, key=jax.random.PRNGKey(0))
-        e = float(jnp.max(jnp.abs(r(u) - s(s(s(u))))))
-        return {"reproduced": e > 1e-8 or abs(r.dt - 3 * s.dt) > 1e-12, "detail": f"RepeatedStepper(Burgers,3): |r(u)-s(s(s(u)))| = {e:.3g}, dt_eff = {r.dt}"}
+        errs = {"1D Burgers r(u) vs s(s(s(u)))": float(jnp.max(jnp.abs(r(u) - s(s(s(u))))))}
+        for D, N in ((1, 8), (2, 6)):
+            sd = ex.stepper.Diffusion(D, 1.0, N, 0.01)
+            rd = ex.RepeatedStepper(sd, 2)
+            shape = (1,) + (N,) * (D - 1) + (N // 2 + 1,)
+            uh = jnp.asarray(rng.normal(size=shape) + 1j * rng.normal(size=shape))
+            errs[f"{D}D step_fourier on a complex spectrum"] = float(jnp.max(jnp.abs(rd.step_fourier(uh) - sd.step_fourier(sd.step_fourier(uh)))))
+            g = np.asarray(ex.make_grid(D, 1.0, N))
+            v = np.sin(2 * np.pi * g[0]) * (np.cos(np.pi * np.arange(N))[None, :] if D == 2 else 1.0)
+            v = jnp.asarray(v)[None] if D == 2 else jnp.asarray(v)[None]
+            errs[f"{D}D physical step, Nyquist-column content"] = float(jnp.max(jnp.abs(rd(v) - sd(sd(v)))))
+        bad = {k: e for k, e in errs.items() if e > 1e-9}
+        return {"reproduced": bool(bad) or abs(r.dt - 3 * s.dt) > 1e-12, "detail": f"RepeatedStepper vs naive loop: {bad or errs}; dt_eff = {r.dt}"}
 
     return replay
 
